@@ -300,12 +300,12 @@ func c04RuleA(e *c04Env, r *c04Reader) {
 func c04RuleB(e *c04Env, r *c04Reader) {
 	c := e.c
 	for _, m := range r.methods {
-		if e.advanceHelper(r, m, 0) {
+		if j2AdvanceHelper(e, r, m, 0) {
 			continue // its call sites carry the obligation
 		}
 		for _, b := range m.Blocks {
 			for i, in := range b.Instrs {
-				if !e.advanceSite(r, in) {
+				if !j2AdvanceSite(e, r, in) {
 					continue
 				}
 				what := "store " + r.cur.Name()
@@ -623,15 +623,15 @@ func c04RuleE(e *c04Env, r *c04Reader) {
 			// directly after a scalar text attach?
 			ok := c04WalkBack(ci, func(in ssa.Instruction) int {
 				switch {
-				case e.attachSite(r, in):
+				case j2AttachSite(e, r, in):
 					return c04Stop
-				case e.advanceSite(r, in), e.wrapCall(r, in):
+				case j2AdvanceSite(e, r, in), e.wrapCall(r, in):
 					return c04Fail
 				}
 				if x, isCall := in.(ssa.CallInstruction); isCall && e.consumes(x) {
 					return c04Fail
 				}
-				if e.restoreStore(r, in) {
+				if j2RestoreSite(e, r, in) {
 					return c04Fail
 				}
 				return c04Cont
@@ -1287,7 +1287,7 @@ func c04RuleH(e *c04Env, r *c04Reader) {
 						if cf != nil && e.isMethodOf(r, cf) && w.canDescend(x) {
 							return st, c04Descend
 						}
-						if e.attachSite(r, in) || e.advanceSite(r, in) {
+						if j2AttachSite(e, r, in) || j2AdvanceSite(e, r, in) {
 							return st, c04Stop
 						}
 						if e.consumes(x) {
@@ -1469,24 +1469,24 @@ func c04KindName(v interface{}) string {
 func c04RuleI(e *c04Env, r *c04Reader) {
 	c := e.c
 	type site struct {
-		fn   *ssa.Function
-		in   ssa.Instruction
-		what string
+		fn    *ssa.Function
+		in    ssa.Instruction
+		what  string
+		inner []ssa.CallInstruction // the removal inside a same-receiver helper: its control conditions count too
 	}
 	var sites []site
 	for _, d := range r.marks {
-		sites = append(sites, site{d.fn, d.instr, "marks candidate"})
+		sites = append(sites, site{d.fn, d.instr, "marks candidate", nil})
 	}
 	for _, d := range r.deliv {
 		if r.wrapFn[d.fn] {
-			sites = append(sites, site{d.fn, d.instr, "delivers candidate"})
+			sites = append(sites, site{d.fn, d.instr, "delivers candidate", nil})
 		}
 	}
 	for f := range r.wrapFn {
-		for _, ci := range core.Calls(f) {
-			if c04Callee(ci) == e.remove && c04IsLoadOf(ci.Common().Args[0], r.holder) {
-				sites = append(sites, site{f, ci, "rejects candidate"})
-			}
+		rm, inner := j2RemoveSites(e, r, f)
+		for _, ci := range rm {
+			sites = append(sites, site{f, ci, "rejects candidate", inner[ci]})
 		}
 	}
 	sort.SliceStable(sites, func(i, j int) bool {
@@ -1500,7 +1500,11 @@ func c04RuleI(e *c04Env, r *c04Reader) {
 		key := core.FuncKey(s.fn) + " " + s.what + " under selection-state conditions only"
 		bad := ""
 		var badPos token.Pos
-		for _, ed := range e.cd(s.fn).controlling(s.in.Block()) {
+		ctl := e.cd(s.fn).controlling(s.in.Block())
+		for _, ic := range s.inner {
+			ctl = append(ctl, e.cd(ic.Parent()).controlling(ic.Block())...)
+		}
+		for _, ed := range ctl {
 			ifi := ed.ifInstr()
 			if ifi == nil {
 				bad, badPos = "a non-boolean branch (switch / type switch)", core.InstrPos(ed.from.Instrs[len(ed.from.Instrs)-1])
